@@ -17,7 +17,7 @@ CONF = dict(
         'ideal hash: C20_extract_build, C20_matches_are_leaves and C20_altered_hash_changes_root_or_rejects take an injective node hash H (H a b = H c d -> a = c /\\ b = d) as hypothesis; C20_extract_build_sha256 needs none but assumes no two sibling subtrees of the block hash alike',
         'soundness is stated for a proof whose transaction count equals the block size (the count is not committed to by the root: C20_altered_count_refuted)',
     ],
-    explanation='theorems: Bitcoin partial merkle tree (spec: tree datatype, builder, level-by-level root) is accepted by the modelled extractor with the block root and exactly the matched ids in block order, for every count 1..16666 and every subset (induction on tree height, odd widths via Node1); tree hash = level-by-level root; soundness, altered-hash, surplus-hash/flag-byte, out-of-range-count theorems; refutations for in-range count, padding bit, leaf bit; claim shape, peg-in flag bit, fee/value split (full: claim succeeds iff fee <= amount, and then the outputs sum to the amount). K: independent Go builder vs spec builder (blob bytes), implementation parser+ExtractMatches vs model on valid, corrupted and malformed blobs, pegin.Claim serialization vs model. Histories (family mhist): ExtractMatches keeps nothing between calls but FBad; with FBad clear a call returns the fresh verdict of the present fields (theorem), K and S replay extract / in-place edit / extract sequences and compare with a freshly decoded proof; FBad is an exported field of the value and is never cleared: an object carrying FBad = true is refused (theorem C20_history_sticky_fbad, example C20_history_sticky_fbad_example); S expects exactly that. S: the statement on the implementation incl. the full single-corruption matrix, the repeated-tail forgery, bitcoin transactions in non-canonical encodings (extended with empty witnesses, trailing bytes) and several peg-in outputs.',
+    explanation='theorems: Bitcoin partial merkle tree (spec: tree datatype, builder, level-by-level root) is accepted by the modelled extractor with the block root and exactly the matched ids in block order, for every count 1..16666 and every subset (induction on tree height, odd widths via Node1); tree hash = level-by-level root; soundness, altered-hash, surplus-hash/flag-byte, out-of-range-count theorems; refutations for in-range count, padding bit, leaf bit; claim shape, peg-in flag bit, fee/value split (full: claim succeeds iff fee <= amount, and then the outputs sum to the amount). K: independent Go builder vs spec builder (blob bytes), implementation parser+ExtractMatches vs model on valid, corrupted and malformed blobs, pegin.Claim serialization vs model. Histories (family mhist): ExtractMatches keeps nothing between calls but FBad; with FBad clear a call returns the fresh verdict of the present fields (theorem), K and S replay extract / in-place edit / extract sequences (count, flag bits, hash bytes, and the LENGTH of a TxHashes entry: a non-32-byte entry makes chainhash.NewHash fail, theorem C20_history_bad_length_refused) and compare with a freshly decoded proof; FBad is an exported field of the value and is never cleared: an object carrying FBad = true is refused (theorem C20_history_sticky_fbad, example C20_history_sticky_fbad_example); S expects exactly that. S: the statement on the implementation incl. the full single-corruption matrix, the repeated-tail forgery, bitcoin transactions in non-canonical encodings (extended with empty witnesses, trailing bytes) and several peg-in outputs.',
 )
 
 TEXT = dict(
